@@ -211,6 +211,34 @@ pub fn run_block_c17(verif_seed: u64, block: u64, n_runs: usize, opts: &BlockOpt
             }
         }
     }
+    // --- once per block, after the runs (so that it cannot disturb them): histories over data with
+    // degenerate strides (stride 0, zero-length trailing axes), shipped strategies, every entry point
+    if sum.violations.is_empty() || !opts.stop_first {
+        let (n, cmp, viol) = crate::degen::degenerate_history_cases();
+        let mut c = Counters(std::mem::take(&mut sum.counters));
+        c.add("reach.degenerate_stride_interpolators", n);
+        c.add("reach.degenerate_stride_responses_compared", cmp);
+        sum.counters = c.0;
+        if let Some(detail) = viol {
+            sum.violations.push(RunFile {
+                format: "dst-replay v1".into(),
+                property: "C17".into(),
+                kind: "result-mismatch".into(),
+                engine: "baton".into(),
+                verif_seed,
+                block,
+                run: n_runs as u64,
+                variant: "cases:degenerate-histories".into(),
+                prefix_runs: 0,
+                flaky: false,
+                spec: None,
+                build_case: None,
+                miri: None,
+                no_nest: false,
+                violation: Violation { property: "C17".into(), kind: "result-mismatch".into(), detail, thread: 0, op: 0, step: 0 },
+            });
+        }
+    }
     sum.nontrivial = nt.into_iter().collect();
     sum.traces = tr.into_iter().collect();
     sum
